@@ -62,7 +62,9 @@ RetryCmd(d, t) ==                                   \* a `retry` target turns in
 Inbound(d, x) == {t \in TaskNames(d) : \E i \in 1..Len(Edges(d, t)) : Edges(d, t)[i].dst = x}
 NPrev(d, x)   == LET S == {<<t, i>> \in TaskNames(d) \X (1..8) : i <= Len(RawEdges(d, t)) /\ RawEdges(d, t)[i].dst = x}
                  IN Cardinality(S)
-Need(d, x)    == IF d.tasks[x].join = -1 THEN Cardinality(Inbound(d, x)) ELSE d.tasks[x].join
+(* join: 0 none, -1 all, -2 a declared "join: 0" (a barrier whose requirement falls back to 1), n *)
+Need(d, x)    == IF d.tasks[x].join = -1 THEN Cardinality(Inbound(d, x))
+                 ELSE IF d.tasks[x].join = -2 THEN 1 ELSE d.tasks[x].join
 Roots(d)      == {t \in TaskNames(d) : Inbound(d, t) = {}}
 
 Succ(d, t)    == {Edges(d, t)[i].dst : i \in 1..Len(Edges(d, t))} \cap TaskNames(d)
